@@ -49,11 +49,12 @@ PROPS = {
                "on the same query (superset) and inverse_continuing_5dof; dense random-walk trajectories of 200 steps where each "
                "call's previous is the preceding first answer; Frame::forward_transformed (ordered by closeness to the given previous joints). "
                "non-trivial = at least one solution returned"),
-    "C02": dict(cfg(3000, 300000, ["C02."],
+    "C02": dict(cfg(3000, 300000, ["C02.", "C06.origin"],
                "robot zoo x random joint vectors kept away from wrist/elbow/shoulder singularities by margins {1e-3,1e-2,1e-1} on "
                "|sin theta5|, |sin(theta3+psi3)| and |cx1| (computed by the generator and re-checked by the driver's oracle); for "
                "each: answers of inverse(forward(q)) and the size of the answer set of the pose of every returned solution; every third "
-               "case also the private inverse_intern (hook). non-trivial = at least one answer"), extra_modules=["C02b"]),
+               "case also the private inverse_intern (hook); every fourth also inverse_5dof (the duplicated position-only copy of the "
+               "formulas; the originating J1..J5 must come back); geometry incl. negative c1/c2/c3/c4. non-trivial = at least one answer"), extra_modules=["C02b"]),
     "C05": cfg(1500, 100000, ["C05."],
                "hook-level is_close_to_multiple_of_pi / are_angles_close on the grid k*pi +- {0, thr/2, thr(1+-1e-6), 2thr, 1e-9, 0.1}, "
                "k in -4..4; kinematic_singularity through wrapper stacks on robots with J5 offsets and negative J5 sign at the same "
@@ -76,11 +77,13 @@ PROPS = {
                "NEVER_COLLIDES/0/positive/below -1 on any pair incl. tool, base, environment and pairs naming J1, both key orders) "
                "x three modes; every scene run under rayon pools of 1, 2, 4, 16 threads; the oracle table (intersects, distance, "
                "AABB pre-filter) is computed by direct parry3d calls on every pair of bodies. non-trivial = at least one colliding pair"),
-    "C11": cfg(200, 10000, ["C11."],
+    "C11": cfg(200, 10000, ["C11.", "C09.shape_forward", "C10.all_exact", "C10.first_subset", "C10.collides_iff", "C10.nocheck_empty"],
                "robots with shape through both constructors (new with both flag values, with_safety over the C10 safety families) x "
                "random base and tool transforms, limits and 0-3 obstacles near the links x four entry points, each with the inner "
                "stack's answers, the robot's own verdict per answer and the wrapper's answers; every second case also forward, link "
-               "poses, limits, singularity and positioned_robot against the inner stack. non-trivial = the wrapper returned >= 1 answer"),
+               "poses, limits, singularity and positioned_robot against the inner stack; plus C10-style scenes with the brute-force "
+               "oracle table (the verdicts 'not reported colliding' rests on), incl. the directed family 'bodies that really touch, "
+               "exempted pair by pair, decoy keys naming J6 instead of the tool'. non-trivial = the wrapper returned >= 1 answer"),
     "C14": cfg(300, 10000, ["C14."],
                "collision-free initial vectors in C10-style scenes (with and without base/tool, limits on 40% of robots) x from/to at "
                "0.05..1.8 rad from the initial value x rayon pools 1,2,4,16; per candidate the compliance verdict, the full "
